@@ -31,6 +31,19 @@ BPlusTreeMap, LeafNode, BranchNode = M.BPlusTreeMap, M.LeafNode, M.BranchNode
 InvalidCapacityError = M.InvalidCapacityError
 
 
+class KeysOnly:
+    """what dict.update also accepts: an object with keys() and __getitem__ only"""
+
+    def __init__(self, d):
+        self._d = d
+
+    def keys(self):
+        return self._d.keys()
+
+    def __getitem__(self, k):
+        return self._d[k]
+
+
 # ----------------------------------------------------------------------------- keys
 class K:
     """user-defined totally ordered key class"""
@@ -468,8 +481,10 @@ class History:
             # a mapping when the keys are pairwise distinct and the step number is even,
             # otherwise an iterable of pairs (both argument forms of update)
             distinct = len(set(int(i.split(":")[0]) for i in toks[1:])) == len(pairs)
-            if distinct and self.step % 2 == 0:
+            if distinct and self.step % 3 == 0:
                 t.update(dict(pairs))
+            elif distinct and self.step % 3 == 1:
+                t.update(KeysOnly(dict(pairs)))      # has keys() and __getitem__ but no items()
             else:
                 t.update(pairs)
             d.update(pairs)
